@@ -76,12 +76,12 @@ fn lw(max: u128) -> u128 {
 }
 
 /// the language of a type: every entry a bit and `sum coeff[j] * x[j] = k` (no relation: `None`)
-struct Lang<F> {
-    len: usize,
-    rel: Option<(Vec<F>, F)>,
+pub struct Lang<F> {
+    pub len: usize,
+    pub rel: Option<(Vec<F>, F)>,
 }
 
-fn digit_weights<F: FieldElementWithInteger>(bits: usize, last: u128) -> Vec<F>
+pub fn digit_weights<F: FieldElementWithInteger>(bits: usize, last: u128) -> Vec<F>
 where
     F::Integer: TryFrom<u128>,
     <F::Integer as TryFrom<u128>>::Error: std::fmt::Debug,
@@ -104,7 +104,7 @@ fn in_language<F: FieldElement>(l: &Lang<F>, x: &[F]) -> bool {
 }
 
 /// vectors whose only defect is the entry at `pos` (not a bit); `None` when the solved entry is a bit
-fn one_bad_entry<F: FieldElementWithInteger>(rng: &mut Sm, l: &Lang<F>, pos: usize) -> Option<Vec<F>>
+pub fn one_bad_entry<F: FieldElementWithInteger>(rng: &mut Sm, l: &Lang<F>, pos: usize) -> Option<Vec<F>>
 where
     F::Integer: TryFrom<u128>,
     <F::Integer as TryFrom<u128>>::Error: std::fmt::Debug,
@@ -292,4 +292,30 @@ pub fn malicious_clients(out: &mut Out, rng: &mut Sm, thorough: bool) {
             attack(out, rng, &i, &Lang { len: n, rel: Some((coeff, Field128::zero())) }, thorough);
         }
     }
+}
+
+/// the languages of the chunked Field128 types, for other harness modules
+pub fn lang_hist(len: usize) -> Lang<Field128> {
+    Lang { len, rel: Some((vec![Field128::one(); len], Field128::one())) }
+}
+pub fn lang_mhot(len: usize, max_weight: usize) -> Lang<Field128> {
+    let bw = bits_of(max_weight as u128);
+    let mut coeff = vec![Field128::one(); len];
+    coeff.extend(digit_weights::<Field128>(bw, lw(max_weight as u128)).into_iter().map(|w| Field128::zero() - w));
+    Lang { len: len + bw, rel: Some((coeff, Field128::zero())) }
+}
+pub fn lang_l1(max: u128, len: usize) -> Lang<Field128> {
+    let b = bits_of(max);
+    let w = digit_weights::<Field128>(b, lw(max));
+    let mut coeff: Vec<Field128> = (0..len * b).map(|j| w[j % b]).collect();
+    coeff.extend(w.iter().map(|w| Field128::zero() - *w));
+    Lang { len: b * (len + 1), rel: Some((coeff, Field128::zero())) }
+}
+/// vectors whose only defect is one non-bit entry, at the first, middle, last-but-one and last position
+pub fn edge_defects(rng: &mut Sm, lang: &Lang<Field128>) -> Vec<Vec<Field128>> {
+    let n = lang.len;
+    let mut pos = vec![0, n / 2, n.saturating_sub(2), n - 1];
+    pos.sort();
+    pos.dedup();
+    pos.into_iter().filter_map(|p| one_bad_entry(rng, lang, p).or_else(|| one_bad_entry(rng, lang, p))).collect()
 }
